@@ -337,7 +337,7 @@ M("C03-local-fun-twice", "C03", LOC, '''        def fun(x):
                 value = self._problem.evaluate(x)
             return self._sign * value
 ''', ["R03.2", "R03.3"], "local objective may evaluate twice per scipy call")
-M("C03-gsc-root-only", "C03", GSC, "        return tree.n_evaluations >= self.limit", "        return tree.root.n_evaluations >= self.limit", ["R03.6"], "eval-limit GSC reads the root's counter only")
+M("C05-gsc-root-only", "C05", GSC, "        return tree.n_evaluations >= self.limit", "        return tree.root.n_evaluations >= self.limit", ["R05.9"], "eval-limit GSC reads the root's counter only")
 M("C03-level-sum-filtered", "C03", TREE, 'sum(deme.n_evaluations for deme in level_demes)', 'sum(deme.n_evaluations for deme in level_demes if deme.is_active)', ["R03.3"], "per-level total over active demes only")
 M("C03-direct-objective", "C03", POP, "        fitness_values = [self.problem.evaluate(genome, *args, **kwargs) for genome in self.genomes[nan_mask]]", "        fitness_values = [self.problem.evaluate(genome, *args, **kwargs) if len(self.genomes) > 3 else self.problem._inner.fitness_function(genome) for genome in self.genomes[nan_mask]]", ["R03.7"], "objective invoked directly for tiny populations")
 M("C03-gsc-wrong-limit", "C03", HMS, "SingularProblemEvalLimitReached(maxfun) if maxfun is not None else MetaepochLimit(maxiter)", "SingularProblemEvalLimitReached(2 * maxfun) if maxfun is not None else MetaepochLimit(maxiter)", ["R03.5"], "GSC built from a different limit")
@@ -594,7 +594,8 @@ M("C07-seed-clone", "C07", TREE, "                    sprout_seed=ind,\n", "    
 M("C07-registry-swapped", "C07", DINIT, "    LHSLevelConfig: LHSDeme,\n    SobolLevelConfig: SobolDeme,", "    LHSLevelConfig: SobolDeme,\n    SobolLevelConfig: LHSDeme,", ["R07.3"], "LHS and Sobol engines swapped")
 M("C07-init-level-shift", "C07", DINIT, "        level=target_level,\n", "        level=target_level + (1 if parent_deme is not None and parent_deme.level > 0 else 0),\n", ["R07.3"], "deep demes record the wrong level")
 M("C07-seed-not-appended", "C07", DE, "            starting_pop.append(seed_ind)\n", "", ["R07.8"], "DE child does not contain its seed")
-M("C07-shade-full-sample", "C07", SH, "                self._pop_size - 1,\n", "                self._pop_size,\n", ["R07.8"], "SHADE child has pop_size + 1 individuals")
+# (the seed is still contained: the well-formedness clause of C07 holds; what breaks is C12's constant population size)
+M("C12-shade-full-sample", "C12", SH, "                self._pop_size - 1,\n", "                self._pop_size,\n", ["R12.2"], "SHADE child has pop_size + 1 individuals")
 M("C07-ea-seed-perturbed", "C07", EA, "            seed_ind = Individual(x0, problem=self._problem)", "            seed_ind = Individual(x0 + 0.0 * self._sample_std_dev, problem=self._problem) if self._pop_size > 2 else Individual(starting_pop[0].genome, problem=self._problem)", ["R07.8"], "tiny populations duplicate a sample instead of the seed")
 M("C07-best-ever", "C07", GEN, "individuals=[deme.best_current_individual]", "individuals=[deme.best_individual]", ["R07.7"], "BestPerDeme offers the historical best")
 M("C07-nbc-all", "C07", GEN, '''class NBC_Generator(SproutCandidatesGenerator):
